@@ -37,7 +37,18 @@ type opsWorld struct {
 	// archived weeks as first served / first written (C03 immutability)
 	firstServed map[uint32]string
 	Served      map[uint32][]byte
+	lastArchive []byte
 }
+
+// extraCheck is a hook for scenario-specific oracles (C14 inspects the zip).
+func (d *srvScenarioDef) extraCheck(w *opsWorld) *vio {
+	if f := scenarioExtra[d.Name]; f != nil {
+		return f(d, w)
+	}
+	return nil
+}
+
+var scenarioExtra = map[string]func(d *srvScenarioDef, w *opsWorld) *vio{}
 
 func newOpsWorld(name string) (*opsWorld, error) {
 	resetGlobals()
